@@ -19,6 +19,16 @@ struct Tree {
     #[allow(dead_code)]
     #[serde(default)]
     md: Option<String>,
+    /// the note a Reference node points to
+    #[serde(default)]
+    tgt: Option<i64>,
+    /// the notes linked from the node's text
+    #[serde(default)]
+    refs: Vec<i64>,
+}
+
+fn links(t: &Tree) -> String {
+    t.refs.iter().map(|k| format!(" [l](n{})", k)).collect()
 }
 
 #[derive(Deserialize)]
@@ -53,18 +63,21 @@ fn blocks(ts: &[Tree], level: usize, n: &mut usize) -> Vec<String> {
         let id = *n;
         match t.k.as_str() {
             "S" => {
-                out.push(format!("{} h{}", "#".repeat(level), id));
+                out.push(format!("{} h{}{}", "#".repeat(level), id, links(t)));
                 if !t.c.is_empty() {
                     out.push(String::new());
                     out.extend(blocks(&t.c, level + 1, n));
                 }
             }
-            "L" => out.push(format!("p{}", id)),
-            "R" => out.push(format!("[r{}](x{})", id, id)),
+            "L" => out.push(format!("p{}{}", id, links(t))),
+            "R" => out.push(match t.tgt {
+                Some(k) => format!("[r{}](n{})", id, k),
+                None => format!("[r{}](x{})", id, id),
+            }),
             "T" => {
                 out.push(format!("| a{} | b |", id));
                 out.push("| --- | --- |".to_string());
-                out.push("| c | d |".to_string());
+                out.push(format!("| c | d{} |", links(t)));
             }
             "Raw" => {
                 out.push("```".to_string());
@@ -84,7 +97,7 @@ fn blocks(ts: &[Tree], level: usize, n: &mut usize) -> Vec<String> {
                         out.push(String::new());
                     }
                     *n += 1;
-                    let mut lines = vec![format!("i{}", *n)];
+                    let mut lines = vec![format!("i{}{}", *n, links(item))];
                     if !item.c.is_empty() {
                         lines.push(String::new());
                         lines.extend(blocks(&item.c, level, n));
@@ -123,6 +136,22 @@ fn kind_of(dbg: &str) -> &'static str {
         "Empty" => "Empty",
         _ => "?",
     }
+}
+
+/// what the reference index answers for the notes 1, 2, 3 and the missing note 9 (sorted node ids)
+fn index_answers(g: &Graph) -> Value {
+    let v: Vec<Value> = [1i64, 2, 3, 9]
+        .iter()
+        .map(|k| {
+            let key = Key::from_file_name(&format!("n{}", k));
+            let mut b: Vec<u64> = g.get_block_references_to(&key);
+            let mut i: Vec<u64> = g.get_inline_references_to(&key);
+            b.sort();
+            i.sort();
+            json!({"k": k, "b": b, "i": i})
+        })
+        .collect();
+    Value::Array(v)
 }
 
 fn snapshot(g: &Graph) -> (Value, Value) {
@@ -198,7 +227,7 @@ pub fn cmd_replay(args: &[String]) -> i32 {
                     out,
                     "{}",
                     json!({"ev": "update", "hist": hi, "step": si + 1, "k": k, "tree": op["tree"], "md": md,
-                           "nodes": [{"kind": "panic", "prev": -1, "next": -1, "child": -1, "key": ""}], "keys": []})
+                           "nodes": [{"kind": "panic", "prev": -1, "next": -1, "child": -1, "key": ""}], "keys": [], "index_panic": false, "index": []})
                 )
                 .unwrap();
                 ok = false;
@@ -208,7 +237,12 @@ pub fn cmd_replay(args: &[String]) -> i32 {
             writeln!(
                 out,
                 "{}",
-                json!({"ev": "update", "hist": hi, "step": si + 1, "k": k, "tree": op["tree"], "md": md, "nodes": nodes, "keys": keys})
+                {
+                    // a panic while the index is asked is recorded, not fatal
+                    let ix = catch(std::panic::AssertUnwindSafe(|| index_answers(&g)));
+                    json!({"ev": "update", "hist": hi, "step": si + 1, "k": k, "tree": op["tree"], "md": md, "nodes": nodes, "keys": keys,
+                           "index_panic": ix.is_err(), "index": ix.unwrap_or(json!([]))})
+                }
             )
             .unwrap();
         }
